@@ -104,6 +104,26 @@ PROPS['C08'] = {
                     'may raise; toLower/toUpper opaque', 'ProtocolEntity._generateId uniqueness is not covered here'],
 }
 
+PROPS['C18'] = {
+    'sidecars': ['contracts/C18_stack.py'],
+    'level': 'other',
+    'explanation': 'Proved (no bound): the default helpers getCoreLayers / getProtocolLayers / getDefaultLayers / getDefaultStack for all 32 '
+                   'flag combinations x with/without a top layer (layer order, exactly the selected optional modules, call-binding safety), '
+                   'builder push / pop / pushDefaultLayers / build as tuple algebra over a symbolic layer tuple, YowStack.send / receive / '
+                   'emitEvent / broadcastEvent / getProp / setProp, one hop of the data path and of the event walk in YowLayer (toUpper, '
+                   'emitEvent, broadcastEvent with stop-on-true and the detached hand-off, onEvent) and the fan-out loops of '
+                   'YowParallelLayer.receive / send (every member, in order; loop invariants, unbounded group size). '
+                   'Bounded stand-in (labelled bounded): YowStack._construct wiring, YowParallelLayer method substitution / onEvent / '
+                   'getLayerInterface and the event walk through whole assembled stacks, on all shapes up to depth 3-4 plus random '
+                   'shapes to depth 6 with groups of 1-4, four construction conventions, every consumer position, detached and normal.',
+    'native_checks': [{'name': 'c18_stack_shapes', 'cmd': ['bounded/stack_check.py'],
+                       'bound': 'quick: 340 shapes (depth<=3 exhaustive over widths {plain,1,2,4}) + 20 random to depth 6, x4 conventions, '
+                                'x every consumer level x detached/normal; 32 default-stack flag combinations with real layers'}],
+    'assumptions': ['YowStack.__init__ and YowParallelLayer.__init__ are opaque constructor events in the helper contracts (their effect is '
+                    'covered by the bounded stand-in only)', 'layers above/below are opaque objects whose onEvent result is an arbitrary value',
+                    'the closure handed to execDetached is not executed symbolically (the bounded stand-in drains the queue)'],
+}
+
 NOT_APPLICABLE = {
     'C11': 'quantifies over thread interleavings (2-4 sender threads through lock/queue operations); no verifier available here '
            'has a thread or permission model and sequential contracts cannot express "for every schedule" (DESIGN.md section 8)',
